@@ -7,22 +7,33 @@ T0 = 2000000000
 TIMEOUT = 600
 RULE = ('for every registered JSON-RPC method (28, taken from REGISTER_APIFUNCTION) on a depth-4 zone forest '
         '(grandparent/parent/receiver/child/grandchild/sibling/unrelated root + child/global): every sender relation x every object zone '
-        '(state/event methods) x {authenticated endpoint, unauthenticated connection under an endpoint name, authenticated under an unconfigured name}; '
+        '(state/event methods) x {authenticated endpoint, unauthenticated connection under an endpoint name, authenticated under an unconfigured name, '
+        'the receiver\'s own identity (authenticated / not)}; '
         'every method x every sender relation x every claimed originZone (none, receiver zone, parent, grandparent, child, grandchild, sibling, unrelated, global, nonexistent name); accept_config/accept_commands in all four combinations for the config/command methods; '
-        'messages with no/newer/older "ts"; check results from the command endpoint; then random forests (4-9 zones, random receiver, sender, object, flags). '
+        'messages with no/newer/older "ts"; check results from the command endpoint; '
+        'event::ExecuteCommand with an "endpoint" argument (forwarding): sender relation x target endpoint (none, unknown name, receiver itself, own-zone peer, child, grandchild, parent, sibling, unrelated) x claimed originZone x checkable (missing, own zone, child, grandchild, global, zone-less) x capability of the child endpoints x accept_commands, receiver being / not being the routing master of its zone, receivers at the root, in the middle and at a leaf - observed: which zones got an event::ExecuteCommand / event::ExecutedCommand queued; '
+        'config::UpdateObject with the zone named by the message (none, unknown name, own, parent, child, sibling, unrelated, global) x zone of the existing object / of the config text of the new object (observed: zone of the created object), config::DeleteObject of zoned runtime objects; '
+        'then random forests (4-9 zones, random receiver, sender, object, flags, forwarding targets). '
         'Each message goes through the real JsonRpcConnection::MessageHandler with parameters that are prepared so that an accepted message has a visible effect. '
         'non-trivial = the case contains at least one applied and one refused message; distinct = distinct script text')
 TRUSTED = ['model: coq/Msg/MzModel.v (transcription of Zone::IsChildOf/CanAccessObject, JsonRpcConnection ctor + MessageHandler origin construction, '
-           'and one normalised origin-check pattern per handler)',
-           'source facts re-extracted each run: tools/facts_c13.py normalises the refusal checks of all REGISTER_APIFUNCTION handlers into coq/Facts/Facts_c13.v; '
-           'the specification side (which class each method belongs to, coq/Msg/MzModel.v mz_class_table) is hand-written',
-           'harness/ops_mz.cpp: builds zones/endpoints/objects from config text, sets ApiListener::m_Instance/m_LocalEndpoint/accept flags directly (no PKI, no network), '
-           'calls the private JsonRpcConnection::MessageHandler on a connection object over an unconnected stream; '
-           'script fields oz= (zone attribute of the addressed object) and ce= (sender is the command endpoint) are computed by the generator from the same forest',
+           'and one normalised origin-check pattern per handler), coq/Msg/MzFwd.v (the "endpoint" branch of ExecuteCommandAPIHandler, SyncRelayMessage/RelayMessageOne at zone granularity), '
+           'coq/Msg/MzCfg.v (params.zone of config::UpdateObject)',
+           'source facts re-extracted each run: tools/facts_c13.py normalises the refusal checks of all REGISTER_APIFUNCTION handlers into coq/Facts/Facts_c13.v, '
+           'lists every registration (method, handler function, file; number of macro uses; registrations bypassing the macro), decides per handler whether the recognised checks '
+           'stand at the top level and precede every effect (regex-based scan: pure accessors and writes to message-local data are not effects), and recognises the shapes of the forwarding branch, '
+           'of RelayMessageOne/SyncRelayMessage and of the params.zone test; '
+           'the specification side (which class each method belongs to, coq/Msg/MzModel.v mz_class_table) is hand-written - it is the statement\'s classification of the methods',
+           'harness/ops_mz.cpp: builds zones/endpoints/objects from config text, sets ApiListener::m_Instance/m_LocalEndpoint/accept flags and Endpoint capabilities directly (no PKI, no network), '
+           'calls the private JsonRpcConnection::MessageHandler on a connection object over an unconnected stream, decodes the JSON strings queued for the other endpoints; '
+           'script fields oz= (zone attribute of the addressed object) and ce= (sender is the command endpoint) are computed by the generator from the same forest; '
+           'ocaml/ops_mz.ml derives "who is connected" (two endpoints per zone, receiver a = routing master) from the script',
            'hook H1 (virtual clock) in lib/base/utility.cpp']
 ASSUMPTIONS = ['objects held by a node are in its own zone, below it, or global (hypothesis mz_placed of C13_sound; cases outside it are still compared with the model)',
                'Endpoint objects always have a zone (Endpoint::OnAllConfigLoaded; exercised by op mz_zoneless on the real code)',
-               'event::ExecuteCommand is exercised for local execution (no "endpoint" parameter or the local endpoint); the forwarding branch to child zones is not modelled',
+               'forwarding theorems about relay zones assume no global zone among the ancestors of the target zone (global zones have no endpoints and no children in any generated forest)',
+               'the relay model is at zone granularity: which endpoint of a zone gets the copy (std::set order of Endpoint pointers) is not modelled',
+               'reading of the statement for forwarded commands: accept_commands governs EXECUTION on a node; passing a command down to a child zone is decided by zone relations alone (that is what the code does: C13_forward_ignores_accept_flags)',
                'config::Update is exercised up to the staging directory (no validation child process)']
 
 METHODS = ['event::CheckResult', 'event::SetNextCheck', 'event::SetLastCheckStarted', 'event::SetStateBeforeSuppression',
@@ -56,7 +67,7 @@ class Forest:
         return 'mz_tree id=%d z=%s' % (self.tid, ','.join(self.par))
 
 
-def msg(F, recv, snd, method, obj, auth=1, ident='ep', claim='-', ts='none', ac=1, ak=1, xz=None, var=None):
+def msg(F, recv, snd, method, obj, auth=1, ident='ep', claim='-', ts='none', ac=1, ak=1, xz=None, var=None, xt=None, xcap=1, xh=1, rep='a', zp=None, cz=None):
     """obj: int zone | 'nz' | ('k', zone).  Computes the model-facing oz= / ce= fields."""
     ce = 0
     if obj == 'nz':
@@ -81,8 +92,27 @@ def msg(F, recv, snd, method, obj, auth=1, ident='ep', claim='-', ts='none', ac=
         extra += ' xz=%d' % xz
     if var:
         extra += ' var=' + var
+    if xt is not None:
+        # forwarding family of event::ExecuteCommand: params.endpoint, capability of the child endpoints, params.host exists
+        extra += ' xt=%s xcap=%d xh=%d' % (xt, xcap, xh)
+    if rep != 'a':
+        extra += ' rep=' + rep
+    if zp is not None:
+        extra += ' zp=' + str(zp)      # config::UpdateObject: the zone the message names (e none, x unknown name, <zone>)
+    if cz is not None:
+        extra += ' cz=' + str(cz)      # config::UpdateObject var=new: the zone the config text states (- none)
     return 'mz_msg t=%d recv=%d snd=%s auth=%d ident=%s claim=%s m=%s obj=%s oz=%s ce=%d ts=%s ac=%d ak=%d%s' % (
         F.tid, recv, snd, auth, ident, claim, method, tag, oz, ce, ts, ac, ak, extra)
+
+
+def _below(F, q, r):
+    """zone q is r or lies below r"""
+    while True:
+        if q == r:
+            return True
+        if F.par[q] in ('-', 'g'):
+            return False
+        q = int(F.par[q])
 
 
 def generate(seed, tier):
@@ -94,9 +124,16 @@ def generate(seed, tier):
     senders = [('0a', 1, 'ep'), ('1a', 1, 'ep'), ('2b', 1, 'ep'), ('3a', 1, 'ep'), ('4a', 1, 'ep'), ('5a', 1, 'ep'), ('6a', 1, 'ep'),
                ('1a', 0, 'ep'), ('2b', 0, 'ep'), ('1a', 1, 'unk')]
     objs_all = [2, 1, 3, 4, 5, 6, 8, 'nz']
-
     def keep(method, p=1.0):
         return rnd.random() < min(1.0, EXPENSIVE.get(method, 1.0) * p * (scale if scale < 1 else 1.0))
+
+    # the sender presents the RECEIVER's own identity (2a is the receiver): authenticated = a peer of the own zone; unauthenticated = nobody
+    for m in METHODS:
+        for (auth, claim) in [(1, '-'), (1, '3'), (1, '1'), (1, 'x'), (0, '-')]:
+            for obj in (rnd.sample(objs_all, 3) if m in OBJ_METHODS else [2]):
+                if keep(m):
+                    msgs.append(('sender-is-self', F, msg(F, recv, '2a', m, obj, auth=auth, claim=claim,
+                                                          ts=rnd.choice(['none', 'none', 'new', 'old']))))
 
     for m in METHODS:
         for (snd, auth, ident) in senders:
@@ -134,6 +171,53 @@ def generate(seed, tier):
         msgs.append(('variants', F, msg(F, recv, snd, 'pki::UpdateCertificate', 2, auth=auth, ident=ident, var='other')))
         for xz in (2, 3, 1, 5):
             msgs.append(('variants', F, msg(F, recv, snd, 'event::ExecutedCommand', 2, auth=auth, ident=ident, xz=xz)))
+    # config::UpdateObject / DeleteObject: the zone the message names vs. the zone of the existing object / of the config text
+    for (snd, auth, ident) in senders + [('2a', 1, 'ep')]:
+        for zp in ['e', 'x', '2', '1', '3', '5', '6', '8']:
+            for obj in rnd.sample([2, 3, 1, 5, 8, 'nz'], 2):
+                if keep('config::UpdateObject', 0.8):
+                    msgs.append(('object-zone', F, msg(F, recv, snd, 'config::UpdateObject', obj, auth=auth, ident=ident, zp=zp,
+                                                       ac=0 if rnd.random() < 0.15 else 1)))
+            if keep('config::UpdateObject', 0.8):
+                msgs.append(('object-zone', F, msg(F, recv, snd, 'config::UpdateObject', 2, auth=auth, ident=ident, var='new', zp=zp,
+                                                   cz=rnd.choice(['-', '2', '3', '1', '5']), ac=0 if rnd.random() < 0.15 else 1)))
+        for obj in [2, 3, 1, 5]:
+            if keep('config::DeleteObject', 1.5):
+                msgs.append(('object-zone', F, msg(F, recv, snd, 'config::DeleteObject', obj, auth=auth, ident=ident, var='zoned')))
+    # ExecuteCommand with an "endpoint" parameter (forwarding branch): receiver 2 has child 3 and grandchild 4.
+    # sender relation x target endpoint (none, unknown, receiver itself, own-zone peer, child, grandchild, parent, sibling,
+    # unrelated) x claimed originZone x checkable (missing / zone 2 / 3 / 4 / global / zone-less) x capability x accept_commands
+    XT = ['-', 'unk', '2a', '2b', '3a', '3b', '4a', '4b', '1a', '0a', '5a', '6b', '7a']
+    for (snd, auth, ident) in senders + [('2a', 1, 'ep')]:
+        for xt in XT:
+            trusted = auth == 1 and ident == 'ep' and snd in ('2b', '2a', '1a')
+            reps = 3 if (trusted and xt in ('3a', '4a', '4b', '2b')) else 1
+            for _ in range(reps):
+                claim = rnd.choice(['-', '-', '1', '3', '4', '2', '0', 'x', '8']) if snd[0] == '2' else rnd.choice(['-', '-', '-', '1', '3', '0'])
+                obj = rnd.choice([2, 3, 4, 4, 8, 'nz', 5])
+                xh = 0 if rnd.random() < 0.15 else 1
+                xcap = 0 if rnd.random() < 0.15 else 1
+                msgs.append(('exec-forward', F, msg(F, recv, snd, 'event::ExecuteCommand', obj, auth=auth, ident=ident, claim=claim,
+                                                    ak=rnd.randint(0, 1), ts=rnd.choice(['none', 'none', 'none', 'new', 'old']),
+                                                    xt=xt, xcap=xcap, xh=xh)))
+    # the receiver is NOT the routing master of its zone (endpoint b; a is): only the master gets relayed copies
+    for (snd, auth, ident) in [('2a', 1, 'ep'), ('1a', 1, 'ep'), ('1b', 1, 'ep'), ('3a', 1, 'ep'), ('0a', 1, 'ep')]:
+        for xt in ['3a', '4b', '2a', '2b', '-', '5a']:
+            msgs.append(('exec-forward', F, msg(F, recv, snd, 'event::ExecuteCommand', rnd.choice([2, 3, 4]), auth=auth, ident=ident,
+                                                claim=rnd.choice(['-', '-', '1', '3']) if snd[0] == '2' else '-',
+                                                ak=rnd.randint(0, 1), xt=xt, xcap=rnd.choice([1, 1, 1, 0]), xh=1, rep='b')))
+    # other receivers: the root (no parent zone), a leaf (nothing below), the unrelated root
+    for r in (0, 1, 4, 6, 3):
+        for _ in range(int(10 * scale)):
+            z = rnd.choice(F.real)
+            snd = '%d%s' % (z, rnd.choice('ab'))
+            if rnd.random() < 0.6:
+                snd = '%d%s' % (rnd.choice([r] + ([int(F.par[r])] if F.par[r] not in '-g' else [])), rnd.choice('ab'))
+            below = [q for q in F.real if q != r and _below(F, q, r)]
+            pool = ['-', 'unk', '%da' % r, '%db' % r] + ['%d%s' % (q, e) for q in below for e in 'ab'] * 2 + ['%da' % rnd.choice(F.real)]
+            msgs.append(('exec-forward', F, msg(F, r, snd, 'event::ExecuteCommand', rnd.choice([q for q in F.real] + ['nz', 8]),
+                                                claim=rnd.choice(['-', '-', str(rnd.choice(F.real)), 'x']), ak=rnd.randint(0, 1),
+                                                xt=rnd.choice(pool), xcap=rnd.choice([1, 1, 1, 0]), xh=rnd.choice([1, 1, 1, 0]))))
     # command endpoint: host k<z> is checked by the first endpoint of z's first child zone
     for z in (0, 1, 2, 3, 6):
         ch = F.children(z)[0]
@@ -206,9 +290,18 @@ def generate(seed, tier):
             if rnd.random() < (0.6 if z == r else 0.4):
                 claim = rnd.choice([str(rnd.randrange(G.n)), str(rnd.randrange(G.n)), 'x', str(r), str(z)])
             xz = rnd.choice(G.real) if m == 'event::ExecutedCommand' else None
+            xkw = {}
+            if m == 'event::ExecuteCommand' and rnd.random() < 0.8:
+                if rnd.random() < 0.7:       # aim at an accepted stage 1: sender from the own or the parent zone
+                    sz = rnd.choice([r] + ([int(G.par[r])] if G.par[r] not in '-g' else []))
+                    snd = '%d%s' % (sz, rnd.choice('ab'))
+                below = [q for q in G.real if _below(G, q, r)]
+                xkw = dict(xt=rnd.choice(['-', 'unk'] + ['%d%s' % (q, e) for q in below for e in 'ab'] * 2 + ['%da' % rnd.choice(G.real)]),
+                           xcap=rnd.choice([1, 1, 1, 0]), xh=rnd.choice([1, 1, 1, 0]))
+                obj = rnd.choice(['nz'] + list(range(G.n)))
             msgs.append(('random-forest', G, msg(G, r, snd, m, obj, auth=auth, ident=ident, claim=claim,
                                                  ts=rnd.choice(['none', 'none', 'none', 'new', 'old']),
-                                                 ac=rnd.randint(0, 1), ak=rnd.randint(0, 1), xz=xz)))
+                                                 ac=rnd.randint(0, 1), ak=rnd.randint(0, 1), xz=xz, **xkw)))
     # pack into cases of ~10 messages per (family, forest); global virtual time increases with the case index
     groups = collections.OrderedDict()
     for fam, G, line in msgs:
@@ -292,7 +385,35 @@ def extra_stats(cases, impl):
             else:
                 refused += 1
                 per[meth + ' refused'] += 1
-    return {'messages_applied': applied, 'messages_refused_or_inert': refused,
+    fwd = collections.Counter()
+    zpc = collections.Counter()
+    selfc = 0
+    for c in cases:
+        ml = _msg_lines(c)
+        il = [l for l in impl.get(c['id'], []) if l.startswith('msg ')]
+        for s, o in zip(ml, il):
+            f = dict(t.split('=', 1) for t in s.split()[1:] if '=' in t)
+            if f['snd'] == f['recv'] + f.get('rep', 'a'):
+                selfc += 1
+            if 'xt' in f:
+                ob = dict(t.split('=', 1) for t in o.split('#')[0].split()[1:] if '=' in t)
+                kind = ('forwarded' if ob.get('xc', '-') != '-' else 'error-reply-relayed' if ob.get('xd', '-') != '-'
+                        else 'executed-locally-or-other-effect' if ob.get('app') == '1' else 'discarded')
+                fwd[kind] += 1
+                tgt = f['xt']
+                tk = ('none' if tgt == '-' else 'unknown-name' if tgt == 'unk' else 'receiver-itself' if tgt == f['recv'] + f.get('rep', 'a')
+                      else 'own-zone-peer' if tgt[:-1] == f['recv'] else 'other-endpoint')
+                fwd['target:' + tk + ' ' + kind] += 1
+                if f.get('rep', 'a') == 'b':
+                    fwd['receiver_not_routing_master'] += 1
+                if ob.get('xc', '-') != '-':
+                    fwd['forwarded_to_%d_zones' % len(ob['xc'].split(','))] += 1
+            if 'zp' in f:
+                zk = 'none' if f['zp'] == 'e' else 'unknown-name' if f['zp'] == 'x' else ('same-as-object' if f['zp'] == f.get('oz') else 'other-known-zone')
+                zpc[zk + (' applied' if ' app=1' in o else ' not_applied')] += 1
+    return {'exec_forwarding': dict(sorted(fwd.items())), 'update_object_zone_named_by_message': dict(sorted(zpc.items())),
+            'messages_under_the_receivers_own_identity': selfc,
+            'messages_applied': applied, 'messages_refused_or_inert': refused,
             'accepted_messages_with_visible_effect': 'all: the model line app=1 means "authorised and effectful"; any accepted message without a visible change would be a trace mismatch (mismatches are reported above)',
             'origin_claims': dict(sorted(claims.items())),
             'what_changed_tokens': dict(kinds), 'per_method': dict(sorted(per.items()))}
